@@ -21,8 +21,9 @@ RULE = ("cases are (valid base engine spec with whitespace-separated rule tokens
         "subsets for k <= 8, otherwise all subsets of size <= 2, their complements and 64 generated ones); a (base, "
         "subset) pair is non-trivial when the subset is non-empty; distinct by (spec, subset)")
 ASSUMPTIONS = [
-    "precondition (statement's domain): the fully configured base engine is reported ready and processes the rows "
-    "without raising; bases failing this are discarded and counted (`base_discarded`)",
+    "base engines are valid by construction (coherent Mamdani / Takagi-Sugeno / Tsukamoto profiles with every operator "
+    "present); a base that is not reported ready is discarded and counted (`base_discarded_not_ready`, 0 in practice); a "
+    "ready base that fails to process is a violation like any other subset (no masking precondition)",
     "needed (<- clause): conjunction/disjunction - an enabled block has a loaded rule whose antecedent contains the "
     "keyword; implication - an enabled block has an enabled loaded rule concluding on an enabled output variable with "
     "an integral defuzzifier; aggregation - output variable with an integral defuzzifier; defuzzifier - every output "
@@ -125,16 +126,11 @@ def check_base(ctx, case) -> None:
         if getattr(target, k) is not None:  # only components the base has are removable
             base_ops[(kind, i, k)] = getattr(target, k)
     comps = sorted(base_ops)
-    # precondition: the fully configured base is ready and processes the rows
+    # the fully configured base engine is valid by construction (coherent profile, every operator present): it must be
+    # reported ready; if it is, the empty subset below already asserts that it processes (no masking precondition)
     errs: list[str] = []
-    try:
-        ok = e.is_ready(errs)
-        if ok:
-            process_rows(e, rows)
-    except Exception:  # noqa: BLE001 - outside the statement's domain (base engine itself not processable)
-        ok = False
-    if not ok:
-        ctx.cls("base_discarded")
+    if not e.is_ready(errs):
+        ctx.cls("base_discarded_not_ready")
         return
     ctx.cls("bases")
     kind = connective_kind(spec)
